@@ -13,6 +13,8 @@ var c06Exprs = []string{
 	"`[3, 1, 2]`", "sort(`[3, 1, 2]`)", "`{\"x\": [1]}`.x", "[a, b]", "{p: a, q: b}", "sort_by(a, &@)", "map(&@, a)", "values(b)", "keys(b)", "items(b)",
 	"group_by(c, &k)", "from_items(d)", "zip(a, a)", "not_null(a, b)", "a || b", "a && b", "max_by(c, &k)", "let $v = a in [$v, $v]", "b.*", "*", "join('-', a)",
 	"a[0]", "flatten_me[][]", "a | [0]", "min(a)", "max(a)", "sum(a)", "avg(a)", "a[?@ == `1`]", "c[*].k", "c[?k].k", "c[].k", "to_string(a)", "length(a)",
+	// selectors on the current node whose own sub-expressions are all literals
+	"*[?`true`]", "*[?`1` < `2`][0]", "[?`true`]", "*[?'a' == 'a']", "*[*]", "*[]", "*[0]", "*[1:]", "@[?`true`]", "[`1`, @][1]", "{p: `1`, q: @}.q.a", "*.[`1`]",
 }
 
 // c06Gen: every aliasing-prone function applied to every kind of argument
@@ -141,7 +143,7 @@ func c06Unordered(expr string) bool {
 	case "values(b)", "keys(b)", "items(b)", "b.*", "*":
 		return true
 	}
-	return false
+	return len(expr) > 0 && expr[0] == '*'
 }
 
 // H_C06_pure: one Search on a compiled expression leaves document, expression
@@ -189,10 +191,12 @@ func c06Pure(exprs []string) {
 	// a second document, then the first again
 	d2 := map[string]any{"a": []any{json.Number("3"), json.Number("1"), nil, json.Number("2")}, "b": map[string]any{"k": json.Number("9"), "only_in_d2": json.Number("7")}, "c": []any{map[string]any{"k": "z"}, map[string]any{"k": "y"}}, "d": []any{[]any{"k", json.Number("1")}}}
 	vrtMonitor(true)
-	_, _ = e.Search(d2)
+	r2, err2 := e.Search(d2)
 	r3, err3 := e.Search(d1)
 	vrtMonitor(false)
 	vrtAssert(vrtEventCount("sharedwrite") == 0, "a later Search call wrote to shared state")
+	o2, oerr2 := Search(expr, d2)
+	vrtAssert(sameOutcome(r2, err2, o2, oerr2, un), "a compiled expression applied to a second document differs from a fresh evaluation of that document")
 	vrtAssert(sameOutcome(r1, err1, r3, err3, un), "the same document gives a different outcome after the expression was applied to other data")
 	vrtAssert(deepSame(d1, snap1), "a later Search modified the caller's data")
 	if err1 == nil {
